@@ -15,8 +15,8 @@ use std::collections::BTreeSet;
 #[derive(Clone, Debug)]
 pub struct HistCfg {
     pub prop: &'static str,
-    /// weights: unary, binary, subs, convert, unknown-name, helper-method
-    pub weights: [u32; 6],
+    /// weights: unary, binary, subs, convert, unknown-name, helper-method, overloaded operator
+    pub weights: [u32; 7],
     pub max_steps: usize,
     pub check_print: bool,
     pub check_serde: bool,
@@ -368,6 +368,34 @@ pub fn run_history(tape: &[u32], st: &mut Stats, cfg: &HistCfg) -> Result<HistOu
                     }
                     (Ok(Err(e)), Some(_)) => Ok(Err(e.msg().to_string())),
                     (Ok(Ok(d)), Some(o)) => guard(|| Ok(Some(Entry { tree: Tree::Un(o, Box::new(ea.tree.clone())), f: ex_msg(F::from_deepex(d.clone()))?, d }))),
+                }
+            }
+            6 => {
+                // overloaded operators of DeepEx without shortcuts: - & | ^ % and unary minus apply the
+                // table's operator of that name (an error if the table does not define it)
+                let sym = ["-", "&", "|", "^", "%", "neg"][t.choose(6)];
+                let name = if sym == "neg" { "-" } else { sym };
+                let idx = table.iter().position(|o| o.name == name && if sym == "neg" { o.unary } else { o.bin.is_some() });
+                w.history.push(format!("#{} = overloaded `{sym}` on deep #{a}{}", w.entries.len(), if sym == "neg" { String::new() } else { format!(", #{b}") }));
+                let r = guard(|| match sym {
+                    "-" => ea.d.clone() - eb.d.clone(),
+                    "&" => ea.d.clone() & eb.d.clone(),
+                    "|" => ea.d.clone() | eb.d.clone(),
+                    "^" => ea.d.clone() ^ eb.d.clone(),
+                    "%" => ea.d.clone() % eb.d.clone(),
+                    _ => -ea.d.clone(),
+                });
+                match (r, idx) {
+                    (Err(p), _) => Err(p),
+                    (Ok(Err(_)), None) => Ok(Ok(None)),
+                    (Ok(Ok(_)), None) => {
+                        return Err(fail(&format!("{prop}/overloaded-unknown-accepted"), format!("overloaded `{sym}` returns Ok although the table does not define `{name}` in that role"), w.describe()))
+                    }
+                    (Ok(Err(e)), Some(_)) => Ok(Err(e.msg().to_string())),
+                    (Ok(Ok(d)), Some(o)) => guard(|| {
+                        let tree = if sym == "neg" { Tree::Un(o, Box::new(ea.tree.clone())) } else { Tree::Bin(o, Box::new(ea.tree.clone()), Box::new(eb.tree.clone())) };
+                        Ok(Some(Entry { tree, f: ex_msg(F::from_deepex(d.clone()))?, d }))
+                    }),
                 }
             }
             _ => {
